@@ -537,6 +537,8 @@ def programs(draw, max_depth=4, max_stmts=5, features=None):
         kinds = ["call", "call", "ifv", "switch", "try", "count", "findif", "select", "apply", "num", "bool", "str", "exitcall", "breakcall"]
         if feats:
             kinds = [k for k in kinds if k in feats] or ["num"]
+        if ctx.in_try and "try" in kinds:
+            kinds = kinds + ["try", "try", "try"]      # nested handlers (a handler that throws needs an enclosing one)
         if ctx.depth <= 0:
             kinds = ["num", "bool", "str"]
         k = draw(st.sampled_from(kinds))
@@ -582,6 +584,9 @@ def programs(draw, max_depth=4, max_stmts=5, features=None):
         if k == "try":
             tb = block(ctx.sub(in_try=True, scopes=()), ends="any")
             cb = block(ctx.sub(nums=ctx.nums + ("_exception",)), ends="any", maxlen=2)
+            if ctx.in_try and draw(st.integers(0, 2)) == 0 and not (cb and cb[-1][0] in ("throw", "breakout")):
+                # a handler that throws itself: the exception goes to the enclosing try
+                cb = cb + [["throw", numexpr(ctx.sub(nums=ctx.nums + ("_exception",)))]]
             return ["try", tb, cb]
         if k in ("count", "findif", "select"):
             return [k, arrexpr(ctx), block(ctx.sub(nums=ctx.nums + ("_x",), scopes=(), in_try=False), ends="bool", maxlen=2, plain=True)]
@@ -749,6 +754,8 @@ def features_of(prog):
                 walk_block(e[3], depth + 1, loops)
         elif k == "try":
             labs.add("try")
+            if any(st_[0] == "throw" for st_ in e[2]):
+                labs.add("throw_in_catch")
             walk_block(e[1], depth + 1, 0); walk_block(e[2], depth + 1, loops)
         elif k in ("count", "findif", "select", "apply"):
             labs.add(k)
